@@ -211,6 +211,14 @@ def reference_mei(doc):
     return {"parts": parts}
 
 
+def split_spec(x):
+    """a spine split is given as the sub-spine's events (split at the barline) or as {'at': number of events of the
+    main spine before the '*^', 'sub': events}; the two sub-spines are merged at the end of the measure"""
+    if isinstance(x, dict):
+        return x["at"], x["sub"]
+    return 0, x
+
+
 def reference_kern(doc):
     """doc = {'meter', 'key': [fifths, None], 'nm', 'spines': [{'staff': n|None, 'clef': [sign, line]|None,
     'part': label, 'm': [[ev..] per measure], 'split': {str(mi): [ev..]}}], 'chg', 'kern': style}.
@@ -262,7 +270,9 @@ def reference_kern(doc):
                 ends.append(walkers[si][0].run(sp["m"][mi], pos, meter))
                 sub = (sp.get("split") or {}).get(str(mi))
                 if sub is not None:
-                    ends.append(walkers[si][1].run(sub, pos, meter))
+                    at, sub = split_spec(sub)
+                    off = sum((leaf_dur(l, t) for l, t in flatten(sp["m"][mi])[:at]), F(0))
+                    ends.append(walkers[si][1].run(sub, pos + off, meter))
             assert len(set(ends)) == 1, "kern spines of one part must be aligned"
             pos = ends[0]
         p["end"] = pos
@@ -637,6 +647,9 @@ def kern_text(doc):
     lines.append("\t".join([kern_keysig(doc["key"][0])] * ns))
     lines.append("\t".join(["*M%d/%d" % tuple(doc["meter"])] * ns))
     if style.get("comments"):
+        # other interpretations and a local comment that a reader has to step over
+        lines.append("\t".join(["*met(c)" if tuple(doc["meter"]) == (4, 4) else "*"] * ns))
+        lines.append("\t".join(["*MM96"] * ns))
         lines.append("\t".join(["!"] * ns))
     states = [(_KernSpine(style), _KernSpine(style)) for _ in spines]
     first_bar = style.get("first_bar", True)
@@ -655,15 +668,19 @@ def kern_text(doc):
         # columns of this measure
         cols = []  # (spine index, sub index, token list)
         split_here = [(sp.get("split") or {}).get(str(mi)) is not None for sp in spines]
-        if any(split_here):
-            lines.append("\t".join("*^" if s else "*" for s in split_here))
+        assert sum(split_here) <= 1, "one split per measure"
+        split_onset = None
         total = None
         for si, sp in enumerate(spines):
             toks, tot = _kern_tokens(sp["m"][mi], style)
             cols.append((si, 0, toks))
             if split_here[si]:
-                toks2, tot2 = _kern_tokens(sp["split"][str(mi)], style)
-                assert tot2 == tot
+                at, sub = split_spec(sp["split"][str(mi)])
+                split_onset = toks[at][0] if at < len(toks) else tot
+                toks2, tot2 = _kern_tokens(sub, style)
+                for t in toks2:
+                    t[0] += split_onset
+                assert tot2 + split_onset == tot
                 cols.append((si, 1, toks2))
             assert total is None or total == tot, "kern measure: spines differ in length"
             total = tot
@@ -679,9 +696,14 @@ def kern_text(doc):
                 else:
                     key = (pos, 1, 0)
                 rows.setdefault(key, {})[ci] = states[si][sub].token(leaf, tup, beam)
+        opened = False
         for key in sorted(rows):
-            lines.append("\t".join(rows[key].get(ci, ".") for ci in range(len(cols))))
+            if any(split_here) and not opened and key[0] >= split_onset:
+                lines.append("\t".join("*^" if s else "*" for s in split_here))
+                opened = True
+            lines.append("\t".join(rows[key].get(ci, ".") for ci in range(len(cols)) if opened or cols[ci][1] == 0))
         if any(split_here):
+            assert opened
             toks = []
             for si in range(ns):
                 toks.extend(["*v", "*v"] if split_here[si] else ["*"])
